@@ -13,7 +13,8 @@ PINS = {
     "CxxParser._parse_using_declaration": "02fd75051b83a579636938bf",
     "CxxParser._parse_using_typealias": "24a311bd98b144cb428f7211",
     "CxxParser._consume_attribute_specifier_seq": "99384e37275aa424cee9d8af",
-    "CxxParser._parse_enum_decl": "cae90347986351cf20f9164d",
+    "CxxParser._parse_enum_decl": "f8fc7a84aca84217b3ce8d93",
+    "CxxParser._finish_class_or_enum": "99e950d072e8dec69dc81b45",
 }
 
 
